@@ -215,7 +215,7 @@ func bytesFSCase(c *tarcase.FSCase, st *bstats) (term string, ok bool) {
 		read = readTerm(stream)
 		st.note(stream)
 	}
-	term = fmt.Sprintf("{| b_apko := true; b_members := fs_members %s %s;\n     b_written := %s;\n     b_stream := None;\n     b_read := %s |}",
+	term = fmt.Sprintf("{| b_apko := true; b_members := []; b_fs := Some (%s, %s);\n     b_written := %s;\n     b_stream := None;\n     b_read := %s |}",
 		fsTerm, gal.List(cts), written, read)
 	return term, true
 }
@@ -270,7 +270,7 @@ func bytesRawCase(ms []rawMember, st *bstats) string {
 	} else {
 		st.writeErrs++
 	}
-	return fmt.Sprintf("{| b_apko := false; b_members := %s;\n     b_written := %s;\n     b_stream := None;\n     b_read := %s |}", gal.List(items), written, read)
+	return fmt.Sprintf("{| b_apko := false; b_members := %s; b_fs := None;\n     b_written := %s;\n     b_stream := None;\n     b_read := %s |}", gal.List(items), written, read)
 }
 
 func bytesStreamCase(stream []byte, st *bstats) string {
@@ -278,7 +278,7 @@ func bytesStreamCase(stream []byte, st *bstats) string {
 	if !ok {
 		st.readErrs++
 	}
-	return fmt.Sprintf("{| b_apko := false; b_members := [];\n     b_written := None;\n     b_stream := Some %s;\n     b_read := %s |}", segTerm(stream), gal.Opt(ok, gal.List(ms)))
+	return fmt.Sprintf("{| b_apko := false; b_members := []; b_fs := None;\n     b_written := None;\n     b_stream := Some %s;\n     b_read := %s |}", segTerm(stream), gal.Opt(ok, gal.List(ms)))
 }
 
 // ---- hand-made blocks ---------------------------------------------------------------
